@@ -334,6 +334,39 @@ impl Life {
         Ok(known)
     }
 
+    /// C15 / C05 "early terminations are always paid for / eventually processed": a sector waiting
+    /// in a partition's early-termination queue has not been charged its fee yet, so the miner
+    /// must know about it (its deadline is in the miner-level index) and a callback that will
+    /// process the queue must be pending.
+    fn check_early_termination_progress(&self, w: &W, views: &[MinerView]) -> Result<(), String> {
+        let q = power_cron_queue(&w.vm);
+        for v in views {
+            let pending: BTreeSet<u64> = v.dls.iter().enumerate().filter(|(_, d)| d.parts.iter().any(|p| !p.early_terminated.is_empty())).map(|(i, _)| i as u64).collect();
+            if pending.is_empty() || v.claim.is_none() {
+                continue;
+            }
+            let index: BTreeSet<u64> = v.st.early_terminations.iter().collect();
+            if !pending.is_subset(&index) {
+                return Err(format!("miner {}: sectors await early-termination processing (fee not charged yet) in deadlines {pending:?} but the miner-level index lists only {index:?}: they would never be processed", v.id));
+            }
+            let mut scheduled = false;
+            for evs in q.values() {
+                for (mm, payload) in evs {
+                    if *mm == v.id {
+                        let p: fil_actor_miner::CronEventPayload = fvm_ipld_encoding::from_slice(payload).map_err(|e| format!("undecodable cron payload: {e}"))?;
+                        if p.event_type == fil_actor_miner::CRON_EVENT_PROCESS_EARLY_TERMINATIONS {
+                            scheduled = true;
+                        }
+                    }
+                }
+            }
+            if !scheduled {
+                return Err(format!("miner {}: sectors await early-termination processing in deadlines {pending:?} but no processing callback is pending", v.id));
+            }
+        }
+        Ok(())
+    }
+
     fn standing(&self, w: &W, m: &LifeM, what: &str) -> (Option<String>, Vec<Known>) {
         let vm = &w.vm;
         let mut known = vec![];
@@ -379,6 +412,9 @@ impl Life {
             if o.c02 {
                 self.check_power(&v, m)?;
                 self.check_network(vm)?;
+            }
+            if o.c15 || o.c05 {
+                self.check_early_termination_progress(w, &all)?;
             }
             if o.c04 {
                 check_bookkeeping(&v, &vm.policy)?;
